@@ -233,7 +233,20 @@ Boolean Double_2_ieee2(Double inp, Byte* pDest, Boolean NeedsBig) {
             Mantissa, Exponent, Fraction);
 #endif
 
-    /* (2) Round-to-the-nearest for FP16: */
+    /* (2) Numbers below FP16's normal range (exponent < -14) are stored denormalized,
+     * i.e. with exponent 2^(-14) and a correspondingly right-shifted mantissa.  This has
+     * to happen before rounding, otherwise the rounding decision is taken at the wrong
+     * bit position.  Bits shifted out remain relevant for rounding (sticky): */
+
+    while ((Exponent < -14) && Mantissa) {
+        if (Mantissa & 1) {
+            Fraction |= 1;
+        }
+        Mantissa >>= 1;
+        Exponent++;
+    }
+
+    /* (3) Round-to-the-nearest for FP16: */
 
     /* Bits 27..18 of fractional part of mantissa will make it into dest, so the decision
      * bit is bit 17: */
@@ -265,41 +278,21 @@ Boolean Double_2_ieee2(Double inp, Byte* pDest, Boolean NeedsBig) {
             Mantissa, Exponent, Fraction);
 #endif
 
-    /* (3a) Overrange? */
+    /* (4a) Overrange? */
 
     if (Exponent > 15) {
         return False;
     } else {
-        /* (3b) number that is too small may degenerate to 0: */
+        /* (4b) add bias to exponent; denormal numbers and zero (no leading one in
+           mantissa, possibly after rounding) have a biased exponent of zero: */
 
-        while ((Exponent < -15) && Mantissa) {
-            Exponent++;
-            Mantissa >>= 1;
-        }
-#if DBG_FLOAT
-        fprintf(stderr, "(after denormchk) %2d * 0x%08x * 2^%d Fraction 0x%08x\n",
-                Sign ? -1 : 1, Mantissa, Exponent, Fraction);
-#endif
-
-        /* numbers too small to represent degenerate to 0 (mantissa was shifted out) */
-
-        if (Exponent < -15) {
-            Exponent = -15;
+        if (Mantissa & 0x10000000ul) {
+            Exponent += 15;
+        } else {
+            Exponent = 0;
         }
 
-        /* For denormal numbers, exponent is 2^(-14) and not 2^(-15)!
-           So if we end up with an exponent of 2^(-15), convert
-           mantissa so it corresponds to 2^(-14): */
-
-        else if (Exponent == -15) {
-            Mantissa >>= 1;
-        }
-
-        /* (3c) add bias to exponent */
-
-        Exponent += 15;
-
-        /* (3d) store result */
+        /* (4c) store result */
 
         pDest[1 ^ !!NeedsBig]
                 = (Sign << 7) | ((Exponent << 2) & 0x7c) | ((Mantissa >> 26) & 3);
